@@ -27,7 +27,7 @@
 //   receive <chunk> <E_s> <good01>                     Node::receive_chunk with the genuine / a tampered replica
 //   announce <chunk> <E_s> <peer> <ttl_s> <ep01> <asg01>   Node::handle_announce
 //   obs <chunk>
-//        -> r=<0|1|-> sh=<abs ns|-> ct=<peer:abs ns,..|-> ck=<abs ns|-> pf=<abs wall ns:attempts|-> fp=<same|chg>
+//        -> r=<0|1|-> sh=<abs ns|-> ct=<peer:abs ns,..|-> ck=<abs ns|-> pf=<abs wall ns:attempts|-> mc=<E_s of the adopted (cached, unexpired) manifest|-> fp=<same|chg>
 //           (announce appends  all=<chunk:abs wall ns:attempts,...|->  the whole pending-fetch table)
 //           (sh/ct/ck: live records only, steady-clock deadlines; fp: did anything in the node's
 //            chunk store, DHT, manifest cache, swarm plans or pending-fetch table change)
@@ -186,7 +186,12 @@ std::string obs_records(const ChunkId& c) {
     if (auto it = node->pending_chunk_fetches_.find(key); it != node->pending_chunk_fetches_.end()) {
         pf = std::to_string(it->second.manifest_expires.time_since_epoch().count()) + ":" + std::to_string(it->second.attempts);
     }
-    return "sh=" + sh + " ct=" + ct + " ck=" + ck + " pf=" + pf;
+    // the manifest the node currently has adopted for the chunk (cache entry, shown while unexpired): its expiry in seconds
+    std::string mc = "-";
+    if (auto it = node->manifest_cache_.find(key); it != node->manifest_cache_.end() && it->second.expires_at > std::chrono::system_clock::now()) {
+        mc = std::to_string(std::chrono::duration_cast<seconds>(it->second.expires_at.time_since_epoch()).count());
+    }
+    return "sh=" + sh + " ct=" + ct + " ck=" + ck + " pf=" + pf + " mc=" + mc;
 }
 
 std::string obs_line(const std::string& r, const ChunkId& c) { return "r=" + r + " " + obs_records(c) + " fp=" + fp_delta(); }
